@@ -17,5 +17,10 @@ def items(rep):
                 if f == "equalized_odds_ratio" and agg == "worst_case":
                     can = [("worst_case_ratio_uses_max", verify.replace_expr("min(eo.ratio(method=method))", "max(eo.ratio(method=method))"))]
                 out.append((NamedMetric(f, agg), can))
+    from ..contracts.base_metrics import GetLabels, Rate
+    from ..contracts.shapes import ScalarShape
+    out += [(Rate(f), []) for f in Rate.COMPONENT]
+    out += [(GetLabels(L, pos, "int"), []) for L in (1, 2, "many") for pos in (False, True)]
+    out += [(ScalarShape("selection_rate", w), []) for w in (False, True)]
     out.append((GeneratedMetricsTable(), [("names_without_the_transform", verify.replace_expr("'{0}_{1}'.format(base_metric.__name__, variant)", "'{0}'.format(base_metric.__name__)"))]))
     return out
